@@ -1,6 +1,7 @@
 package pass
 
 import (
+	"errors"
 	"fmt"
 
 	"github.com/mmcloughlin/addchain/acc/ir"
@@ -24,6 +25,10 @@ type Allocator struct {
 
 // Execute performs temporary variable allocation.
 func (a Allocator) Execute(p *ir.Program) error {
+	if len(p.Instructions) == 0 {
+		return errors.New("allocator: program has no instructions")
+	}
+
 	// Canonicalize operands, collect unique indexes, and delete all names.
 	if err := Exec(p, Func(CanonicalizeOperands), Func(Indexes), Func(ClearNames)); err != nil {
 		return err
